@@ -68,7 +68,7 @@ def gen_prog(rng):
                 beh.append('none')
         table[n] = beh
     seqstate = rng.choice(['X', 'X', None])
-    cleanups = {'c': ('seq', 'X') if seqstate else rng.choice(['none', 'raise', 'bad'])}
+    cleanups = {'c': ('seq', 'X') if seqstate else rng.choice(['none', 'raise', 'bad', 'req-stop', 'req-start'])}
     if seqstate:
         table['X'] = rng.choice([['retry', 'retry', 'finish'], ['finish'], ['retry', 'raise'], [('next', 'Y')], ['retry', 'bad']])
         if table['X'] == [('next', 'Y')]:
@@ -131,6 +131,20 @@ class Harness:
         def c(sm):
             self.trace.append(('C', name, type(sm.cleanup_reason).__name__, getattr(sm, 'tag', None),
                                beh if isinstance(beh, str) else 'seq'))
+            if beh in ('req-stop', 'req-start'):
+                # a request arrives WHILE the cleanup function is executing (an error handler asking for a recovery run, a stop
+                # button): it is issued by a second thread and must not have to wait for the cleanup to return
+                import threading
+                op = ('stop',) if beh == 'req-stop' else ('start', 'B', None)
+                done = threading.Event()
+
+                def req():
+                    self.issue(op, True)
+                    done.set()
+                threading.Thread(target=req, daemon=True).start()
+                if not done.wait(1.0):
+                    self.trace.append(('BLOCKED', op[0]))
+                return None
             if beh == 'none':
                 return None
             if beh == 'raise':
@@ -169,6 +183,7 @@ class Harness:
                     sm.stop()
                 except Exception as e:
                     tr.append(('EXC', type(e).__name__, str(e)[:100]))
+        self.issue = issue
         for op in list(ops) + [('cycle',)] * SETTLE:
             if op[0] == 'cycle':
                 tr.append(('OP', 'cycle'))
@@ -268,6 +283,8 @@ def check_trace(tr, maxloops=10, counts=None):
     for e in tr:
         if e[0] == 'EXC':
             v.append(('raises', e))
+        elif e[0] == 'BLOCKED':
+            v.append(('request-blocks-while-the-cleanup-function-runs', e))
         elif e[0] == 'CYC':
             ev('inv_bounded')
             if e[1] > 2 * maxloops + 2:
